@@ -224,7 +224,7 @@ def main():
             if s.is_p(j, "<"): j = s.skip_generics(j)
             if not s.is_p(j, "{"): die(f"{s.rel}: struct {ctx} is not a braced struct")
             lo, hi = j + 1, s.match[j]
-            signers, attrs_txt, writable = [], [], False
+            signers, attrs_txt, writable, inits = [], [], False, 0
             i = lo
             cur_attrs = []
             while i < hi:
@@ -253,6 +253,7 @@ def main():
                     if a.startswith("account ("):
                         attrs_txt.append((fname, a))
                         if re.search(r"\b(mut|init|init_if_needed|close|zero)\b", a): writable = True
+                        if re.search(r"\b(init|init_if_needed)\b", a): inits += 1
                 cur_attrs = []
                 i = k + 1
             owner_bound = []
@@ -263,7 +264,7 @@ def main():
                         if fname not in owner_bound: owner_bound.append(fname)
             hauth = handler_auth(pname, lib, f, btxt, ctx, files, fn_index, role)
             rows.append(dict(hauth=hauth, program=pname, name=name, attr=attr_roles, attr_txt=attr_txt, doc=doc_roles, handler=handler_roles,
-                             unchecked=unchecked, ctx=ctx, signers=signers, owner_bound=owner_bound, writable=writable, line=f["line"]))
+                             unchecked=unchecked, ctx=ctx, signers=signers, owner_bound=owner_bound, writable=writable, inits=inits, line=f["line"]))
 
     # ---- emit
     o = [L.header("Access-control table of every instruction of the five programs",
@@ -284,7 +285,8 @@ def main():
              "  /-- roles named in the instruction's own `# Errors` / `# Accounts` doc sections -/\n  docRoles : List Role\n"
              "  /-- roles checked inside the handler it calls -/\n  handlerRoles : List Role\n  callsUnchecked : Bool\n"
              "  /-- number of `Signer` accounts -/\n  signers : Nat\n  /-- accounts tied to a signer by `has_one` / signer-derived seeds / address constraints -/\n  ownerBound : Nat\n"
-             "  /-- some account is `mut` / `init` / `close` -/\n  writable : Bool\n  deriving DecidableEq, Repr\n")
+             "  /-- some account is `mut` / `init` / `close` -/\n  writable : Bool\n"
+             "  /-- accounts created by Anchor `init` DURING account validation, i.e. before the guard runs -/\n  inits : Nat\n  deriving DecidableEq, Repr\n")
 
     def rl(xs):
         return "[" + ", ".join(f".{L.ident(x)}" for x in xs) + "]"
@@ -292,7 +294,7 @@ def main():
     for r, i in zip(rows, ids):
         attr = "none" if r["attr"] is None else f"(some {rl(r['attr'])})"
         o.append(f"  | .{L.ident(i)} => ⟨.{r['program']}, {attr}, {rl(r['doc'])}, {rl(r['handler'])}, {str(r['unchecked']).lower()}, "
-                 f"{len(r['signers'])}, {len(r['owner_bound'])}, {str(r['writable']).lower()}⟩")
+                 f"{len(r['signers'])}, {len(r['owner_bound'])}, {str(r['writable']).lower()}, {r['inits']}⟩")
     o.append("")
     o.append("def handlerAuth : IxId → HandlerAuth")
     for r, i in zip(rows, ids):
